@@ -6,7 +6,8 @@
     undecoded rest and the allocation measure. *)
 From Coq Require Import List ZArith NArith Bool.
 From Coq Require Import Init.Byte.
-From Kardia Require Import C16.Model C16.ProofsBase C16.ProofsItem C16.Proofs C16.ProofsTyped.
+From Kardia Require Import C16.Model C16.ProofsBase C16.ProofsItem C16.Proofs C16.ProofsTyped
+  C16.ProofsCanon C16.ProofsRoundtrip C16.ProofsRaw C16.ProofsBound.
 Import ListNotations.
 Local Open Scope N_scope.
 
@@ -76,22 +77,46 @@ Proof.
 Qed.
 Print Assumptions C16_examples.
 
-(** typed layer, PARTIAL: canonicity of the typed decoder for the core type universe [core]:
-    uints of any width, []byte, string, interface{}, and lists and tag-free structs of these,
-    arbitrarily nested.  Missing (statement in Open.v, covered by the correspondence run only):
-    *big.Int, bool, byte arrays, RawValue, pointers and the nil/nilString/nilList, tail and "-"
-    tags, and the typed round trip. *)
-Theorem C16_typed_canonical_partial :
-  forall t il bs v rest a, core t ->
-    dec_val t no_tag il bs = Ok v rest a -> bs = enc_val t no_tag v ++ rest.
-Proof. exact typed_canonical_core. Qed.
-Print Assumptions C16_typed_canonical_partial.
+(** typed layer: canonicity of the typed decoder for EVERY type without rlp:"optional"
+    ([optional_free]): uints, *big.Int, bool, []byte, [n]byte, string, RawValue, interface{},
+    lists, pointers, structs, with the nil / nilString / nilList, tail and "-" tags, nested.
+    For a tail-tagged slice [enc_val] is the bare concatenation of the elements. *)
+Theorem C16_typed_canonical :
+  forall t tg il bs v rest a, optional_free t ->
+    dec_val t tg il bs = Ok v rest a -> bs = enc_val t tg v ++ rest.
+Proof. exact typed_canonical_full. Qed.
+Print Assumptions C16_typed_canonical.
 
-Theorem C16_typed_decode_bytes_exact_partial :
-  forall t bs v rest a, core t ->
+Theorem C16_typed_decode_bytes_exact :
+  forall t bs v rest a, optional_free t ->
     decode_bytes t bs = Ok v rest a -> rest = [] /\ bs = encode_to_bytes t v.
-Proof. exact typed_decode_bytes_exact_core. Qed.
-Print Assumptions C16_typed_decode_bytes_exact_partial.
+Proof. exact typed_decode_bytes_exact_full. Qed.
+Print Assumptions C16_typed_decode_bytes_exact.
+
+(** typed round trip over the WHOLE universe (optional, tail, "-", nil tags included) for values
+    in normal form [wf_val]: uints fit their width, no nil slices / big ints / interfaces, nil
+    pointers only under a nil tag (and then non-nil pointers do not point to an empty
+    encoding), ignored fields zero, RawValues hold one item; [wf_fields] also carries the
+    validity conditions of rlpstruct.ProcessFields.  Trailing zero-valued optional fields are
+    dropped by the encoder and re-created by the decoder. *)
+Theorem C16_typed_roundtrip :
+  forall t v il rest, wf_val t no_tag v -> len (enc_val t no_tag v) < two64 ->
+    exists a, dec_val t no_tag il (enc_val t no_tag v ++ rest) = Ok v rest a.
+Proof. exact typed_roundtrip. Qed.
+Print Assumptions C16_typed_roundtrip.
+
+Theorem C16_typed_decode_bytes_roundtrip :
+  forall t v, wf_val t no_tag v -> len (encode_to_bytes t v) < two64 ->
+    exists a, decode_bytes t (encode_to_bytes t v) = Ok v [] a.
+Proof. exact typed_decode_bytes_roundtrip. Qed.
+Print Assumptions C16_typed_decode_bytes_roundtrip.
+
+(** the normal-form hypothesis is satisfiable on a struct using every tag *)
+Theorem C16_typed_example :
+  wf_val ty_all no_tag val_all /\
+  decode_bytes ty_all (encode_to_bytes ty_all val_all) = Ok val_all [] 0.
+Proof. exact typed_example. Qed.
+Print Assumptions C16_typed_example.
 
 (** REFUTED for rlp:"optional": for struct{A uint64; B uint64 `rlp:"optional"`} the string
     c2 05 80 is accepted, decodes to {5,0}, and {5,0} encodes to c1 05 (which decodes to the
@@ -102,3 +127,29 @@ Theorem C16_typed_canonical_optional_refuted :
     decode_bytes ty_SO (encode_to_bytes ty_SO v) = Ok v [] 0.
 Proof. exact optional_refuted. Qed.
 Print Assumptions C16_typed_canonical_optional_refuted.
+
+(** raw.go agrees with the encoder: Split returns kind, content and the untouched rest of the
+    encoding of any item ([item_kind]: Byte for a single byte below 0x80, else String / List;
+    [item_content]: the string, or the concatenated encodings of the list elements) *)
+Theorem C16_split_encode :
+  forall x rest, len (encode x) < two64 ->
+    split (encode x ++ rest) = ROk (item_kind x, item_content x, rest).
+Proof. exact split_encode. Qed.
+Print Assumptions C16_split_encode.
+
+(** CountValues counts the items of a list payload *)
+Theorem C16_count_values :
+  forall l, len (flat_map encode l) < two64 -> count_values (flat_map encode l) = ROk (len l).
+Proof. exact count_values_encode. Qed.
+Print Assumptions C16_count_values.
+
+(** the allocation bound of C16_size_bound for the typed decoder: every type, every tag,
+    every input (accepted or not) *)
+Theorem C16_typed_size_bound :
+  forall t tg il bs,
+    match dec_val t tg il bs with
+    | Ok _ rest alloc => alloc + len rest <= len bs
+    | Err _ alloc => alloc <= len bs
+    end.
+Proof. exact typed_size_bound. Qed.
+Print Assumptions C16_typed_size_bound.
